@@ -302,6 +302,19 @@ def main(argv):
                 rc, out = (1, 'REPRODUCED: the replay of this witness on the real code does not terminate (killed after %d s)' % max(60, 3 * int(os.environ.get('VERIF_PATH_TIMEOUT', '60'))))
                 if not hang:
                     r = dict(r, failed='does not terminate on the real code (found while replaying: %s)' % r.get('failed'))
+            if rc == 0 and o.kind == 'symx':
+                # proxies cannot model object identity (`is` on integers holds only up to 256 in CPython): replay the same path with large values
+                for alt in (r.get('cex_alts') or [])[:2]:
+                    json.dump({'property': pid, 'obligation': o.name, 'tier': tier, 'case': _jsonable(case), 'cex': _jsonable(alt),
+                               'failed': r.get('failed'), 'detail': 'same path, integer variables beyond the interpreter\'s shared small integers'}, open(rp, 'w'), indent=1)
+                    try:
+                        p = subprocess.run([REPLAY_PY, os.path.join(VERIF, 'lib', 'runner.py'), '--replay', rp], capture_output=True, text=True, timeout=180, env=env)
+                        rc2, out2 = p.returncode, p.stdout + p.stderr
+                    except subprocess.TimeoutExpired:
+                        rc2, out2 = 0, ''
+                    if rc2 == 1:
+                        rc, out, r = 1, out2, dict(r, cex=alt)
+                        break
             if rc == 0 and o.kind == 'symx' and d.get('isolated_retries', 0) < 2:
                 d['isolated_retries'] = d.get('isolated_retries', 0) + 1
                 # the witness does not reproduce in a fresh process: state kept by the code under test may have leaked from an earlier
